@@ -16,6 +16,8 @@ import (
 type LoopOpts struct {
 	AllowErrReturn bool
 	MaxOtherExits  int // exits that are neither header, panic nor error return (reviewed `break`s); default 0
+	Outermost      bool // take the OUTERMOST loop around the call (default: innermost)
+	RangesOver     []string // atoms the loop bound (the header condition) must contain, e.g. "param:events"
 }
 
 // naturalLoops: for every loop header h (target of a back edge t->h with h dominating t) the set of blocks of its
@@ -99,7 +101,7 @@ func (r *Report) LoopVisitsAll(key, fnKey, callee string, o LoopOpts) {
 	var header *ssa.BasicBlock
 	for h, l := range naturalLoops(fn) {
 		for _, c := range calls {
-			if l[c.Block()] && (loop == nil || len(l) < len(loop)) {
+			if l[c.Block()] && (loop == nil || (!o.Outermost && len(l) < len(loop)) || (o.Outermost && len(l) > len(loop))) {
 				loop, header = l, h
 			}
 		}
@@ -107,6 +109,19 @@ func (r *Report) LoopVisitsAll(key, fnKey, callee string, o LoopOpts) {
 	if loop == nil {
 		r.Unres(k, d, "the call of "+callee+" is not inside a loop")
 		return
+	}
+	if len(o.RangesOver) > 0 {
+		okBound := false
+		if ifi := ifOf(header); ifi != nil {
+			p := NormalizeCond(ifi.Cond)
+			if (p.A != nil && p.A.Has(o.RangesOver...)) || (p.B != nil && p.B.Has(o.RangesOver...)) {
+				okBound = true
+			}
+		}
+		if !okBound {
+			r.Bad(k, d, w.FnPos(fn), fmt.Sprintf("the loop around %s is not bounded by %v: it does not range over the whole collection", callee, o.RangesOver))
+			return
+		}
 	}
 	var bad []string
 	others := 0
